@@ -8,7 +8,7 @@ CFG = dict(
          # engine F: per-vertex expressions / loop glue of the attribute maps and the crop guard, from modeling/meshops/*.go (go/facts/c03.go)
          dict(tool="facts", mode="c03.pervertex", out="MeshPerVertex.lean")],
     theorems=[# Props/C02Guards.lean (engine F: every panic of modeling/mesh.go and topology.go with its conditions, regenerated)
-              "PolyVerif.C02.mesh_guards_from_source", "PolyVerif.C02.mesh_guards_count",
+              "PolyVerif.C02.mesh_guards_from_source", "PolyVerif.C02.mesh_guards_count", "PolyVerif.C02.topologies_from_source", "PolyVerif.C02.indexSize_from_source",
               "unweld_spec", "unweld_idem", "removeUnreferenced_spec", "removeUnreferenced_allReferenced", "filterAttr_allReferenced", "flip_spec", "flip_flip", "flip_rejects",
               "toPointCloud_spec", "split_single", "split_rejects_non_triangle", "split_partition", "split_spec", "weld_corners", "weld_representative", "weld_survivors", "weld_spec", "weld_keyCorners", "weld_unweld", "append_spec", "append_rejects", "append_cornersOrZero", "repeatMesh_corners", "filterAttr_spec", "crop_spec", "removeNullFaces_spec", "filterAttr_rejects", "crop_rejects", "removeNullFaces_rejects", "weld_rejects", "scanAttr_spec", "scanVisits_spec", "scanPrimitives_spec", "modifyAttrIdx_spec", "modifyAttrIdx_rejects", "setAttr_spec", "modifyAttr_spec", "mapAttr_spec", "modifyAttr_rejects",
               "translate_spec", "scaleAbout_spec", "scaleMesh_spec", "rotate_spec", "applyTRS_spec", "center_spec",
